@@ -107,6 +107,28 @@ Theorem c04_selection_keyed_by_parent : forall (A : Type) (parents : list Z) (f1
 Proof. exact selection_keyed_by_parent. Qed.
 Print Assumptions c04_selection_keyed_by_parent.
 
+(* selection, the dict select_all_markers RETURNS (built over parent_list after the last worker
+   exited): the same ordered list of (parent, markers) under any two orders f1 f2 in which the
+   workers filled output_dict -- so the order of the entries of the query-marker JSON file does
+   not follow the completion order (distinct parents) *)
+Theorem c04_selection_result_order_independent : forall (A : Type) (parents : list Z) (f1 f2 : list (Z * A)),
+  Permutation f1 f2 -> NoDup (map fst f1) -> selection_result parents f1 = selection_result parents f2.
+Proof. exact selection_result_order_independent. Qed.
+Print Assumptions c04_selection_result_order_independent.
+
+(* ... its keys are parent_list in the order of parent_list, its values are the filled ones *)
+Theorem c04_selection_result_keys : forall (A : Type) (parents : list Z) (f : list (Z * A)) (l : list (Z * A)),
+  selection_result parents f = Some l ->
+  map fst l = parents /\ (forall p v, In (p, v) l -> In (p, v) f).
+Proof. exact selection_result_keys. Qed.
+Print Assumptions c04_selection_result_keys.
+
+(* ... and there is a result as soon as every parent of parent_list was filled *)
+Theorem c04_selection_result_total : forall (A : Type) (parents : list Z) (f : list (Z * A)),
+  (forall p, In p parents -> In p (map fst f)) -> exists l, selection_result parents f = Some l.
+Proof. exact selection_result_total. Qed.
+Print Assumptions c04_selection_result_total.
+
 (* ---- hypotheses satisfiable, conclusions not vacuous *)
 Example c04_example_gather :
   let work := fun (i : nat) (seed : Z) => map (fun j => (Z.of_nat (3 * i + j), seed + Z.of_nat j)%Z) (seq 0 3) in
@@ -130,3 +152,19 @@ Example c04_example_seeds :
   let W := {| code := fun _ => 0%Z; dur := fun w => (3 - w)%nat |} in
   run_seeds (list Z) list_draw W 2 3 [11; 22; 33; 44]%Z = (POk, [(0%nat, 11%Z); (1%nat, 22%Z); (2%nat, 33%Z)]).
 Proof. vm_compute. reflexivity. Qed.
+
+(* four parents filled in two opposite completion orders: one and the same returned dict,
+   keys in the order of parent_list *)
+Example c04_example_selection_result :
+  let parents := [0; 1; 2; 3]%Z in
+  let f1 := [(0, 70); (1, 71); (2, 72); (3, 73)]%Z in
+  let f2 := [(3, 73); (2, 72); (1, 71); (0, 70)]%Z in
+  Permutation f1 f2 /\ NoDup (map fst f1) /\
+  selection_result parents f1 = Some [(0, 70); (1, 71); (2, 72); (3, 73)]%Z /\
+  selection_result parents f2 = Some [(0, 70); (1, 71); (2, 72); (3, 73)]%Z.
+Proof.
+  cbv zeta. split; [|split; [|split; vm_compute; reflexivity]].
+  - change [(3, 73); (2, 72); (1, 71); (0, 70)]%Z with (rev [(0, 70); (1, 71); (2, 72); (3, 73)]%Z).
+    apply Permutation_rev.
+  - apply (proj1 (znodup_b_spec _)). vm_compute. reflexivity.
+Qed.
